@@ -24,6 +24,7 @@ ASSUMPTIONS = [
     "the order in which a trade query lists the fills is not judged (bag comparison)",
     "the value of a fresh id is open (any integer id not below every earlier one); the textual reason of a rejection is not judged; the mutual order of the two notifications of one order is not judged",
     "the bought asset is not credited by the simulated exchange - the statement does not ask for it and the check does not demand it",
+    "requests queued together (a burst) are handled in queue order (MockExchange::run takes them from a FIFO channel one at a time): a burst is judged as the composition of the specification's single steps; within a burst the balance notifications among themselves and the trade notifications among themselves must be in queue order, how the two kinds interleave is not judged (the projection pairs the j-th of either kind)",
 ]
 
 ACTIONS = ["OpenRejectKindA", "OpenRejectInstrA", "OpenAcceptBuyA", "OpenRejectFundsBuyA", "OpenAcceptSellA",
@@ -72,6 +73,21 @@ def anomaly(line):
         return d
     if line.get("a") == "Reset":
         return None
+    if line.get("a") == "burst":
+        its = line.get("reqs")
+        if not isinstance(its, list) or len(its) < 2:
+            return "a burst line without its requests"
+        for it in its:
+            if it.get("drop", 0) != 0 or it.get("a") in ("kill", "Reset", "burst"):
+                return "a burst may not contain %s" % it.get("a")
+            d = _bad_answer(it)
+            if d:
+                return d
+        return None
+    return _bad_answer(line)
+
+
+def _bad_answer(line):
     if line.get("out") not in ("ok", "rej", "query", "lost", "offline", "killed", "cancelled") or (line.get("out") == "lost") != (line.get("drop", 0) in (1, 2)):
         return "the request was not answered: %s" % line.get("out")
     if not _is_int(line.get("id")) or not _is_int(line.get("filled")) or not _is_int(line.get("rt")):
@@ -113,6 +129,49 @@ def _req(line):
     return "%s at client time %d ms" % (line["a"], line["t"])
 
 
+def _new_notifs(line, pre):
+    return line["post"]["notif"][len(pre["notif"]):]
+
+
+def burst_signature(line, pre, fails, j):
+    """burst:<clauses>:<what> - stable and aggregating: the clauses of C08 the burst breaks and, for the
+    notification clauses, which kind of notification is missing / extra / out of order (a label read off the
+    line; the verdict is TLC's)."""
+    its = line["reqs"]
+    new = _new_notifs(line, pre)
+    na = sum(1 for it in its if it["out"] == "ok")
+    nb = sum(1 for n in new if n["k"] == "balance")
+    nt = sum(1 for n in new if n["k"] == "trade")
+    if "Notif11" in fails:
+        what = ("balance_missing" if nb < na else "trade_missing" if nt < na else "balance_extra" if nb > na
+                else "trade_extra" if nt > na else "pattern")
+    elif "NotifContent" in fails:
+        ids = [n["trade"]["id"] for n in new if n["k"] == "trade"]
+        per_asset = {}
+        for n in new:
+            if n["k"] == "balance":
+                per_asset.setdefault(n["asset"], []).append(n["free"])
+        # the assets the accepted orders of the burst spent, in queue order (a label only)
+        spent = [(("usdt" if it["instr"] == "btc_usdt" else "btc") if it["side"] == "buy" else it["instr"].split("_")[0])
+                 for it in its if it["out"] == "ok"]
+        if ids != sorted(ids):
+            what = "trade_order"
+        elif any(v != sorted(v, reverse=True) for v in per_asset.values()) or \
+                [n["asset"] for n in new if n["k"] == "balance"] != spent:
+            what = "balance_order"
+        else:
+            what = "content"
+    else:
+        it = its[j - 1] if 1 <= j <= len(its) else its[-1]
+        what = "%s/%s:%s" % (it["a"], it["out"], "first" if j == 1 else "later")
+    return "burst:%s:%s" % ("+".join(sorted(fails)).lower(), what)
+
+
+def _burst_desc(line):
+    return "; ".join("%s -> %s%s" % (_req(it), it["out"], (" id %d" % it["id"]) if it["out"] == "ok" else
+                                     (" (%s)" % it.get("why") if it["out"] == "rej" else "")) for it in line["reqs"])
+
+
 def signature(line, fails):
     listed = "listed" if line.get("instr") in ("btc_usdt", "eth_btc") else ("unlisted" if line.get("a") == "open" else "-")
     return "%s:%s:%s:%s:%s:%s" % (line.get("a"), line.get("side"), line.get("kind"), listed, line.get("out"),
@@ -122,8 +181,17 @@ def signature(line, fails):
 def scenario_of(seg):
     r = seg[0]
     init = {"fee": r["fee"], "lat": r["lat"], "bal": r["cfg"]["bal"], "open": r["cfg"]["open"], "up": True}
+    if r.get("late"):
+        init["late"] = 1
     keys = ("a", "t", "side", "p", "q", "instr", "kind", "since", "drop")
-    return {"init": init, "evs": [{k: l[k] for k in keys} for l in seg[1:]]}
+    evs = []
+    for l in seg[1:]:
+        if l["a"] == "burst":
+            for n, it in enumerate(l["reqs"]):
+                evs.append(dict({k: it[k] for k in keys}, bq=1 if n else 0))
+        else:
+            evs.append({k: l[k] for k in keys})
+    return {"init": init, "evs": evs}
 
 
 def validate(ctx, trace_path, mode, label):
@@ -132,14 +200,16 @@ def validate(ctx, trace_path, mode, label):
     found, keep = ctx.screen_anomalies(lines, clean, anomaly)
     for n, d, seg in found:
         PENDING.append((len(seg), "anomaly:" + d.split(":")[0], "%s after %s [%s, line %d]" % (
-            d, _req(seg[-1]) if seg[-1].get("a") != "Reset" else "building the exchange", label, n),
+            d, ("a burst queued together: " + "; ".join(_req(it) for it in seg[-1].get("reqs", []))) if seg[-1].get("a") == "burst"
+            else _req(seg[-1]) if seg[-1].get("a") != "Reset" else "building the exchange", label, n),
             {"mode": mode, "scenario": scenario_of(seg)}))
     n, bad, truncated = ctx.tlc_trace("Trace_" + MODULE, "Trace_" + MODULE + ".cfg", clean)
-    why = {}
+    why, at = {}, {}
     wp = clean + ".why"
     if os.path.exists(wp):
         for w in ctx.read_trace(wp):
             why[w["l"]] = w["f"]
+            at[w["l"]] = w.get("j", 0)
     for b in bad:
         seg = ctx.segment(keep, b)
         line = keep[b - 1]
@@ -150,6 +220,17 @@ def validate(ctx, trace_path, mode, label):
             desc = "a fresh exchange configured with %s shows %s / %d fills / orders %s [%s, line %d]" % (
                 _bal(world["cfg"]["bal"]), _bal(line["post"]["bal"]), len(line["post"]["trades"]),
                 json.dumps(line["post"]["open"]), label, b)
+        elif line.get("a") == "burst":
+            pre = seg[-2]["post"]
+            new = _new_notifs(line, pre)
+            sig = burst_signature(line, pre, fails, at.get(b, 0))
+            desc = "fee %d%%, latency %d ms, balances %s, %d fill(s) so far: %d requests QUEUED TOGETHER%s: %s; afterwards balances %s, %d fill(s), %d balance and %d trade notification(s) more (balances announced: %s); breaks %s at request %d of the burst [%s/%s, line %d]" % (
+                world["fee"], world["lat"], _bal(pre["bal"]), len(pre["trades"]), len(line["reqs"]),
+                " before the exchange task was started" if (world.get("late") and len(seg) == 2) else "", _burst_desc(line),
+                _bal(line["post"]["bal"]), len(line["post"]["trades"]),
+                sum(1 for n in new if n["k"] == "balance"), sum(1 for n in new if n["k"] == "trade"),
+                ", ".join("%s %s" % (n["asset"], _amt(n["free"])) for n in new if n["k"] == "balance") or "none",
+                "+".join(sorted(fails)), at.get(b, 0), line.get("src", label), mode, b)
         else:
             pre = seg[-2]["post"]
             sig = signature(line, fails)
@@ -162,11 +243,67 @@ def validate(ctx, trace_path, mode, label):
         PENDING.append((len(seg), sig, desc, {"mode": mode, "scenario": scenario_of(seg)}))
     ctx.cov["traces_validated_against_impl"] += sum(1 for l in keep if l.get("a") == "Reset")
     arms = ctx.cov.setdefault("trace_lines_per_arm", {})
+    bc = ctx.cov.setdefault("bursts", {"validated": 0, "requests": 0, "by_length": {}, "two_or_more_accepted_spending_one_asset": 0,
+                                       "accepted_then_rejected_for_funds": 0, "query_between_two_accepted": 0,
+                                       "queued_before_the_exchange_started": 0, "late_started_exchanges": 0})
+    prev = None
     for l in keep:
-        if l.get("a") != "Reset":
+        if l.get("a") == "Reset":
+            bc["late_started_exchanges"] += 1 if l.get("late") else 0
+        if l.get("a") == "burst":
+            its = l["reqs"]
+            bc["validated"] += 1
+            bc["requests"] += len(its)
+            bc["by_length"][str(len(its))] = bc["by_length"].get(str(len(its)), 0) + 1
+            spent = [(("usdt" if it["instr"] == "btc_usdt" else "btc") if it["side"] == "buy" else it["instr"].split("_")[0])
+                     if it["a"] == "open" else None for it in its]
+            oks = [n for n, it in enumerate(its) if it["out"] == "ok"]
+            if any(spent[a] == spent[b2] for a in oks for b2 in oks if a < b2):
+                bc["two_or_more_accepted_spending_one_asset"] += 1
+            if any(its[n]["out"] == "rej" and its[n].get("why") == "funds" and any(spent[a] == spent[n] for a in oks if a < n) for n in range(len(its))):
+                bc["accepted_then_rejected_for_funds"] += 1
+            if any(its[n]["out"] == "query" and any(a < n for a in oks) and any(a > n for a in oks) for n in range(len(its))):
+                bc["query_between_two_accepted"] += 1
+            if prev is not None and prev.get("a") == "Reset" and prev.get("late"):
+                bc["queued_before_the_exchange_started"] += 1
+            for it in its:
+                k = "burst:%s/%s" % (it["a"], it["out"] if it["a"] != "open" else "%s/%s" % (it["side"], it["out"] + ("" if it["out"] == "ok" else ":" + it.get("why", "-"))))
+                arms[k] = arms.get(k, 0) + 1
+        prev = l
+    for l in keep:
+        if l.get("a") not in ("Reset", "burst"):
             k = "%s/%s" % (l["a"], l["out"] if l["a"] != "open" else "%s/%s" % (l["side"], l["out"] + ("" if l["out"] == "ok" else ":" + l.get("why", "-"))))
             arms[k] = arms.get(k, 0) + 1
     return n
+
+
+def burst_bite(ctx):
+    """The binding must bite: a recorded burst of two accepted orders spending one asset, with the FIRST of its
+    balance notifications taken out of the observed history (what a coalescing exchange would publish), has to be
+    rejected by Trace_MockExchange (Notif11). A tool error if it is not - the burst stage would be vacuous."""
+    lines = ctx.read_trace(ctx.path("clean_run.ndjson"))
+    for n, l in enumerate(lines):
+        if l.get("a") != "burst" or lines[n - 1].get("a") != "Reset":
+            continue
+        its = l["reqs"]
+        if len(its) == 2 and all(it["out"] == "ok" for it in its) and (its[0]["instr"], its[0]["side"]) == (its[1]["instr"], its[1]["side"]):
+            bad = json.loads(json.dumps(l))
+            k = len(lines[n - 1]["post"]["notif"])
+            assert bad["post"]["notif"][k]["k"] == "balance"
+            del bad["post"]["notif"][k]
+            p = ctx.path("bite_burst.ndjson")
+            with open(p, "w") as f:
+                f.write(json.dumps(lines[n - 1]) + "\n" + json.dumps(l) + "\n" + json.dumps(lines[n - 1]) + "\n" + json.dumps(bad) + "\n")
+            _, rejected, _ = ctx.tlc_trace("Trace_" + MODULE, "Trace_" + MODULE + ".cfg", p)
+            ctx.cov["tlc_runs"][-1]["mode"] = "trace-validation (self-test: a corrupted burst must be rejected)"
+            why = {w["l"]: w["f"] for w in ctx.read_trace(p + ".why")} if os.path.exists(p + ".why") else {}
+            if rejected != [4] or why.get(4) != ["Notif11"]:
+                raise vlib.ToolError("a burst whose first balance notification was removed was not rejected as Notif11 "
+                                     "(rejected lines %s, clauses %s)" % (rejected, why))
+            ctx.cov["bursts"]["corrupted_burst_rejected_as"] = "Notif11"
+            ctx.cov["trace_events_validated"] -= 4      # (a self-test, not evidence about the implementation)
+            return
+    raise vlib.ToolError("no burst of two accepted orders on one asset right after a Reset was recorded")
 
 
 def flush(ctx):
@@ -216,6 +353,14 @@ def check(ctx):
     # (ii) simulated request sequences
     nb = 250 if ctx.quick else 5000
     p_b, scn_b = ctx.tlc_gen("Gen_" + MODULE, "GenB_MockExchange.cfg", "behaviours.ndjson", simulate=(nb, 20), timeout=900)
+    # (iii) every pair of requests queued together (a burst of two), on accounts that cover none / one / both
+    p_p, scn_p = ctx.tlc_gen("Gen_" + MODULE, "GenP_MockExchange.cfg" if ctx.quick else "GenP_MockExchange_thorough.cfg", "pairs.ndjson")
+    queued = [("pairs", p_p, scn_p)]
+    if not ctx.quick:
+        # ... and every triple (two opens with a query, or a third order, queued between / after them)
+        p_p3, scn_p3 = ctx.tlc_gen("Gen_" + MODULE, "GenP3_MockExchange.cfg", "triples.ndjson")
+        queued.append(("triples", p_p3, scn_p3))
+    ctx.sample({"kind": "TLC pair of requests queued together", "scenario": scn_p[len(scn_p) // 2]})
     ctx.sample({"kind": "TLC transition scenario", "scenario": scn_t[len(scn_t) // 3]})
     ctx.sample({"kind": "TLC simulated behaviour", "scenario": scn_b[0]})
     steps = 3000 if ctx.quick else 40000
@@ -223,9 +368,15 @@ def check(ctx):
         parts = []
         for label, scn in (("transitions", p_t), ("behaviours", p_b)):
             out = ctx.path("trace_%s_%s.ndjson" % (label, mode))
-            harness(ctx, "run", "--scenarios", scn, "--out", out, "--mode", mode, "--abandon", 4)
+            harness(ctx, "run", "--scenarios", scn, "--out", out, "--mode", mode, "--abandon", 4, "--late", 3)
             parts.append((label, out))
             ctx.cov["scenarios_replayed"] += len(scn_t) if label == "transitions" else len(scn_b)
+        if mode == "run":
+            for label, scn, scns in queued:
+                out = ctx.path("trace_%s_run.ndjson" % label)
+                harness(ctx, "run", "--scenarios", scn, "--out", out, "--mode", mode, "--late", 3)
+                parts.append((label, out))
+                ctx.cov["scenarios_replayed"] += len(scns)
         out = ctx.path("trace_random_%s.ndjson" % mode)
         harness(ctx, "random", "--seed", ctx.seed + (0 if mode == "direct" else 7919), "--steps", steps, "--out", out, "--mode", mode)
         parts.append(("random", out))
@@ -233,6 +384,13 @@ def check(ctx):
             with open(out) as f:
                 ctx.sample({"kind": "recorded line (random driver through MockExchange::run)", "line": json.loads(f.readlines()[3])})
         validate(ctx, concat(ctx, "trace_%s.ndjson" % mode, parts), mode, mode)
+    burst_bite(ctx)
+    # vacuity: bursts must really have been recorded and validated, in every shape the extension is about
+    bc = ctx.cov.get("bursts", {})
+    for k in ("validated", "two_or_more_accepted_spending_one_asset", "accepted_then_rejected_for_funds",
+              "query_between_two_accepted", "queued_before_the_exchange_started"):
+        if not bc.get(k):
+            raise vlib.ToolError("no burst of kind `%s` was recorded: the burst stage is vacuous" % k)
     flush(ctx)
     return ctx.finish()
 
